@@ -231,6 +231,40 @@ Proof.
     rewrite Hs. split; [congruence|]. split; [rewrite D3; discriminate|]. rewrite T4, D4. auto.
 Qed.
 
+(* a Write without a WriteHeader before it fixes the status at 200: nothing observable changes *)
+Definition imply200 (w : gzw) : gzw :=
+  if g_wrote w then w
+  else {| g_status := 200; g_wrote := true; g_committed := g_committed w; g_buf := g_buf w; g_bufparts := g_bufparts w;
+          g_stream := g_stream w; g_hdr := g_hdr w |}.
+
+Lemma imply200_inv w D T : GInv w D T -> GInv (imply200 w) D T /\ g_stream (imply200 w) = g_stream w.
+Proof.
+  intros H. unfold imply200. destruct (g_wrote w) eqn:Ew; [split; [exact H|reflexivity]|].
+  split; [|reflexivity]. destruct H as [I1 I2 I3 I4 I5 I6 I7].
+  assert (Hst : gz_status_of w = 200) by (unfold gz_status_of; rewrite Ew; reflexivity).
+  constructor; cbn [g_hdr g_buf g_stream g_committed].
+  - exact I1.
+  - exact I2.
+  - exact I3.
+  - exact I4.
+  - exact I5.
+  - unfold gz_status_of. cbn [g_wrote g_status]. reflexivity.
+  - destruct (g_stream w); [exact I7|]. destruct I7 as (A & B & C & E & F). rewrite Hst in E, F.
+    unfold gz_status_of. cbn [g_wrote g_status]. auto.
+Qed.
+
+Lemma gz_step_write_ns w n : g_stream w = false ->
+  gz_step cfg w (CWrite (PRaw n)) =
+    if gz_cap cfg <? g_buf (imply200 w) + n then (fst (gz_stream (imply200 w)), snd (gz_stream (imply200 w)) ++ [CWrite (PRaw n)])
+    else ({| g_status := g_status (imply200 w); g_wrote := g_wrote (imply200 w); g_committed := g_committed (imply200 w);
+             g_buf := g_buf (imply200 w) + Z.max 0 n; g_bufparts := g_bufparts (imply200 w) + 1; g_stream := false; g_hdr := g_hdr (imply200 w) |}, []).
+Proof.
+  intros Hs. unfold imply200. cbn [gz_step payload_len]. rewrite Hs. destruct (g_wrote w) eqn:Ew.
+  - destruct (gz_cap cfg <? g_buf w + n); [|reflexivity]. destruct (gz_stream w); reflexivity.
+  - cbn [g_buf]. destruct (gz_cap cfg <? g_buf w + n); [|reflexivity].
+    match goal with |- context [gz_stream ?x] => destruct (gz_stream x) end. reflexivity.
+Qed.
+
 (* a write or a flush in general *)
 Lemma tail_step w D T c :
   (exists n, c = CWrite (PRaw n)) \/ c = CFlush -> GInv w D T ->
@@ -238,24 +272,26 @@ Lemma tail_step w D T c :
 Proof.
   intros Hc H. destruct (g_stream w) eqn:Hs; [apply tail_stream; assumption|].
   destruct Hc as [(n & ->)| ->].
-  - cbn [gz_step]. rewrite Hs. cbn [payload_len]. destruct (gz_cap cfg <? g_buf w + n) eqn:Ecap.
+  - rewrite (gz_step_write_ns w n Hs).
+    destruct (imply200_inv w D T H) as [H' Hs']. rewrite Hs in Hs'. clear H. set (w' := imply200 w) in *.
+    destruct (gz_cap cfg <? g_buf w' + n) eqn:Ecap.
     + (* the buffer would overflow: stream what is buffered, then this write *)
-      destruct (stream_switch w D T Hs H) as [H1 Hs1].
-      destruct (gz_stream w) as [w1 pre] eqn:Eg. cbn [fst snd] in *.
+      destruct (stream_switch w' D T Hs' H') as [H1 Hs1].
+      destruct (gz_stream w') as [w1 pre] eqn:Eg. cbn [fst snd] in *.
       rewrite base_run_app. rewrite <- (step_commit_write D).
       pose proof (tail_stream w1 (commit D 200) (base_run T pre) (CWrite (PRaw n)) (or_introl (ex_intro _ n eq_refl)) Hs1 H1) as [H2 _].
       cbn [gz_step] in H2. rewrite Hs1 in H2. cbn [fst snd] in H2. exact H2.
     + (* buffered *)
       cbn [fst snd base_run fold_left].
-      destruct H as [I1 I2 I3 I4 I5 I6 I7]. rewrite Hs in I7. destruct I7 as (A & B & C & E & F).
+      destruct H' as [I1 I2 I3 I4 I5 I6 I7]. rewrite Hs' in I7. destruct I7 as (A & B & C & E & F).
       destruct (bs_write D (PRaw n)) as (D1 & D2 & D3 & D4). cbn zeta in *. rewrite E in D3, D4. cbn [fst payload_len] in D4.
-      assert (Hst : gz_status_of {| g_status := g_status w; g_wrote := g_wrote w; g_committed := g_committed w; g_buf := g_buf w + Z.max 0 n;
-                                    g_bufparts := g_bufparts w + 1; g_stream := false; g_hdr := g_hdr w |} = gz_status_of w) by reflexivity.
+      assert (Hst : gz_status_of {| g_status := g_status w'; g_wrote := g_wrote w'; g_committed := g_committed w'; g_buf := g_buf w' + Z.max 0 n;
+                                    g_bufparts := g_bufparts w' + 1; g_stream := false; g_hdr := g_hdr w' |} = gz_status_of w') by reflexivity.
       constructor; cbn [g_hdr g_buf g_stream g_committed]; try congruence; try lia.
-      * rewrite D4. destruct ((n <=? 0) || negb (body_allowed (gz_status_of w))) eqn:Ec; [exact I4|].
+      * rewrite D4. destruct ((n <=? 0) || negb (body_allowed (gz_status_of w'))) eqn:Ec; [exact I4|].
         apply Forall_app. split; [exact I4|]. constructor; [|constructor]. exists n. split; [reflexivity|]. apply orb_false_iff in Ec as [Ec _]. lia.
       * rewrite Hst. split; [exact A|]. split; [exact B|]. split; [exact C|]. split; [unfold cur; rewrite D3; reflexivity|].
-        rewrite D4. destruct (body_allowed (gz_status_of w)) eqn:Ea; cbn [negb].
+        rewrite D4. destruct (body_allowed (gz_status_of w')) eqn:Ea; cbn [negb].
         -- rewrite orb_false_r. destruct (n <=? 0) eqn:En; [rewrite F; f_equal; lia|]. rewrite raw_total_snoc, F. cbn. f_equal. lia.
         -- rewrite orb_true_r. exact F.
   - cbn [gz_step].
